@@ -52,7 +52,26 @@ def gen(rng, i, tier):
         G.DYADIC_ONLY = outer
 
 
+def gen_power_between_constraints(rng, kind):
+    """a small constrained model squared (in place), then another constraint: the second one's ancillas must get names
+    that the first did not use, whatever the power did to the model in between"""
+    from props import c02
+    spin = kind == "PCSO"
+    labs = G.labels(rng, rng.choice(['int', 'pool']), rng.randint(2, 3))
+    init = [((rng.choice(labs),), F(rng.choice([-1, 1, 2])))] if rng.random() < 0.5 else []
+    edits = [{"e": "cons", "c": c02.later_unary_form(rng, labs, spin=spin)}]
+    if rng.random() < 0.3:
+        edits.append({"e": rng.choice(["refresh", "copy"])})
+    edits.append({"e": "ipow", "n": 2})
+    if rng.random() < 0.3:
+        edits.append({"e": rng.choice(["refresh", "copy"])})
+    edits.append({"e": "cons", "c": c02.later_unary_form(rng, labs, spin=spin)})
+    return {"kind": kind, "init": G.jraw(init), "edits": edits}
+
+
 def gen_(rng, i, tier, kind):
+    if kind in ("PCBO", "PCSO") and rng.random() < 0.1:
+        return gen_power_between_constraints(rng, kind)
     quad = kind in QUAD
     uni = 'int' if kind.endswith("Matrix") else rng.choice(['int', 'pool', 'pool'])
     labs = G.labels(rng, uni, rng.randint(1, 5))
@@ -257,6 +276,8 @@ def check_state(m, where):
             name = type(m).__name__
             if name in ("PUBO", "PCBO", "PUSO", "PCSO"):
                 forms = [m.to_qubo(), m.to_quso(), m.to_pubo(), m.to_puso()]
+                if td > 2:      # reduced to a requested degree below the model's own
+                    forms += [m.to_pubo(2), m.to_puso(2)] + ([m.to_pubo(3), m.to_puso(3)] if td > 3 else [])
             elif name == "QUBO":
                 forms = [m.to_qubo(), m.to_quso()]
             elif name == "QUSO":
